@@ -24,7 +24,7 @@ BOUNDS = {'quick': {'dimension': 'n = 2 (product spaces 2x2; 1 for sqrt-based fu
 OUTSIDE = ['nuclear norm and its indicator (SVD in LAPACK)', 'KullbackLeiblerCrossEntropy and its conjugate (Lambert W: the first-order identity needs log(W(z)) = log z - W(z), outside the axioms of the uninterpreted W)', 'optimality by values of the projections onto L2-type balls in the quick tier (thorough only)', 'paths on which a norm-like functional is evaluated at a point with vanishing (pointwise) norm in the first-order oracle', 'optimality of KL-type functionals by values (first-order '
            'condition used instead; convexity is a mathematical assumption)', 'dimension above the stated one']
 ASSUMPTIONS = ['convexity of the functionals (first-order oracle only)', 'np.finfo(...).eps / .resolution are served as 0 (the 1e-15 safety factors of proximal_l2 & co. are rounding devices; exact real arithmetic is claimed)']
-SETTINGS = {'max_paths': 1500, 'tol': (1e-9, 4), 'obligation_timeout_ms': 20000, 'eps_zero': True}
+SETTINGS = {'strict_definedness': False, 'max_paths': 1500, 'tol': (1e-9, 4), 'obligation_timeout_ms': 20000, 'eps_zero': True}
 CFG_TIMEOUT = {'quick': 300, 'thorough': 1200}
 
 
